@@ -286,7 +286,11 @@ func trunc(s string, n int) string {
 func conclusiveOnce(fs []Finding) bool {
 	for _, f := range fs {
 		switch f.Sig {
-		case "c03-retained-row-changed", "c03-rows-share-state", "c03-shared-state", "c17-helper-result-not-stable":
+		case "c03-retained-row-changed", "c03-rows-share-state", "c03-shared-state", "c17-helper-result-not-stable",
+			// bytes allocated while one artefact was read, from the runtime's monotonic counter in a
+			// single-threaded child: megabytes above the bound cannot come from the harness, but
+			// whether a pooled decoder allocates its window again depends on what it decoded before
+			"c19-allocation":
 		default:
 			return false
 		}
